@@ -6,7 +6,8 @@ state-merging symbolic interpreter:
   * every value is either a concrete Python object (evaluated by CPython itself) or a model value:
     z3 Bool/Int, BitSet (frozenset over an n-symbol universe as an n-bit vector), Nat (result of len()),
     Obj (instance of a real class whose methods are inlined from their source), SymDict (dict with a concrete
-    ordered key set and symbolic values), SymODict (read-only dict whose *presence, values and iteration order*
+    ordered key set and symbolic values; a key inserted under a symbolic path condition is *symbolically present*),
+    SymSet (mutable set of concrete hashable elements -- e.g. enum members -- with symbolic membership), SymODict (read-only dict whose *presence, values and iteration order*
     are symbolic), ClassProxy (a real class with some attributes shadowed);
   * the interpreter keeps one path condition `pc`; an `if` on a symbolic condition runs both arms on forked
     local environments and merges them with If; heap writes (SymDict items, Obj attributes) are guarded by pc;
@@ -28,7 +29,9 @@ Supported subset (everything else raises CannotEncode -- loud, never skipped):
                bit-vector scalars (ranks) compare as unsigned naturals
   calls      : closures, methods of Obj (resolved through the real MRO, source inlined), constructors of
                registered model classes (__init__ inlined), isinstance, len, bool, frozenset/set on BitSets,
-               BitSet/SymDict/SymODict methods, and -- on purely concrete arguments -- a fixed allow-list of
+               set() / {a, b} / dict() (SymSet / SymDict), BitSet/SymDict/SymSet/SymODict methods (SymSet: add, discard,
+               remove, update, copy, clear, in / not in, len, truth value), methods of a proxied real class on
+               purely concrete arguments under an unconditional path (the REAL function is run), and -- on purely concrete arguments -- a fixed allow-list of
                builtins, enum classes, exception classes and methods of immutable builtin values.
 """
 import ast, inspect, textwrap, hashlib, builtins, enum, operator, sys, os, json, subprocess, types
@@ -197,6 +200,10 @@ class BitSet(Model):
     def lift(v, n):
         if isinstance(v, BitSet):
             return v
+        if isinstance(v, SymSet):
+            v = v.concrete_elems()
+            if v is None:
+                raise CannotEncode("cannot encode: set with symbolic membership used next to a bit-vector set")
         if isinstance(v, (frozenset, set, tuple, list, str, range)):
             x = 0
             for e in v:
@@ -224,10 +231,44 @@ class Obj(Model):
 
 
 class SymDict(Model):
-    """dict with a concrete, ordered key set (Python hash/eq semantics) and interpreter values"""
+    """dict with a concrete, ordered key set (Python hash/eq semantics) and interpreter values.
+    present[k] (only for keys first inserted under a symbolic path condition): the condition under which k is a key;
+    keys not listed there are unconditionally present."""
 
     def __init__(self, items=()):
         self.vals = dict(items)
+        self.present = {}
+
+    def pres(self, k):
+        return _norm(self.present.get(k, True)) if k in self.vals else False
+
+    def all_present(self):
+        return all(_norm(v) is True for v in self.present.values())
+
+
+class SymSet(Model):
+    """mutable set of CONCRETE hashable elements (e.g. enum members) with symbolic membership:
+    mem[e] is a Python bool or a z3 Bool; elements never mentioned are not members.  A heap object: add/discard are
+    guarded by the path condition, the object itself is shared by all paths (like SymDict)."""
+
+    def __init__(self, items=()):
+        self.mem = {}
+        for e in items:
+            self.mem[e] = True
+
+    def member(self, e):
+        return _norm(self.mem.get(e, False))
+
+    def concrete_elems(self):
+        """the elements if membership is concrete everywhere, else None"""
+        out = []
+        for e, m in self.mem.items():
+            m = _norm(m)
+            if m is True:
+                out.append(e)
+            elif m is not False:
+                return None
+        return out
 
 
 class SymODict(Model):
@@ -272,6 +313,13 @@ class BoundMethod(Model):
 class ModelMethod(Model):
     def __init__(self, base, name):
         self.base, self.name = base, name
+
+
+class RealMethod(Model):
+    """a (class/static) method of a proxied real class: callable on purely concrete arguments, by running the REAL function"""
+
+    def __init__(self, proxy, name, fn):
+        self.proxy, self.name, self.fn = proxy, name, fn
 
 
 class ExcValue(Model):
@@ -511,7 +559,9 @@ class Interp:
         if isinstance(v, Nat):
             return v.bv != 0
         if isinstance(v, SymDict):
-            return len(v.vals) > 0
+            return b_or(*[v.pres(k) for k in v.vals])
+        if isinstance(v, SymSet):
+            return b_or(*[v.member(k) for k in v.mem])
         if isinstance(v, SymODict):
             return b_or(*[v.present[k] for k in v.universe])
         if isinstance(v, Obj):
@@ -701,11 +751,19 @@ class Interp:
             except TypeError:
                 _ce(t, "unhashable key")
             if not known:
-                if self.pc is True and not self._iterating(base):
-                    base.vals[key] = v
-                    return
-                _ce(t, "insertion of a new key into a dict under a symbolic path condition or while iterating it")
+                if self._iterating(base):
+                    _ce(t, "insertion of a new key into a dict while iterating it")
+                base.vals[key] = v
+                if self.pc is not True:
+                    # the key exists exactly on the paths that come through here (read elsewhere: KeyError / `in` is False)
+                    base.present[key] = self.pc
+                    self.stats['heap_writes'] += 1
+                return
             self.stats['heap_writes'] += 1
+            if key in base.present:
+                if self._iterating(base):
+                    _ce(t, "possible insertion of a new key into a dict while iterating it")
+                base.present[key] = b_or(base.pres(key), self.pc)    # (where the key was absent the old value is never read)
             nv = merge(self.pc, v, base.vals[key])
             if isinstance(nv, Poison):
                 _ce(t, nv.why)
@@ -746,7 +804,18 @@ class Interp:
             base, kind = it, 'keys'
         else:
             base = None
+        if isinstance(it, SymSet):
+            el = it.concrete_elems()
+            if el is None:
+                _ce(node, "iteration over a set with symbolic membership (its order would depend on the path taken)")
+            try:
+                order = list(set(el))      # hash order of this CPython (concrete metadata), as for real sets
+            except TypeError:
+                _ce(node, "unhashable set element")
+            return [(True, (lambda x=x: x)) for x in order], it
         if isinstance(base, SymDict):
+            if not base.all_present():
+                _ce(node, "iteration over a dict some of whose keys exist only on some paths")
             keys = list(base.vals)
             pick = {'keys': lambda k: k, 'values': lambda k: base.vals[k], 'items': lambda k: (k, base.vals[k])}[kind]
             return [(True, (lambda k=k: pick(k))) for k in keys], base
@@ -851,6 +920,18 @@ class Interp:
             _ce(e, "starred element")
         return [self.eval(x, fr) for x in e.elts]
 
+    def ev_Set(self, e, fr):
+        if any(isinstance(x, ast.Starred) for x in e.elts):
+            _ce(e, "starred element")
+        elts = [self.eval(x, fr) for x in e.elts]
+        if not is_concrete(elts):
+            _ce(e, "set display with symbolic elements")
+        try:
+            return SymSet(elts)
+        except TypeError:
+            self.raise_exc('TypeError')
+            return None
+
     def ev_Dict(self, e, fr):
         if any(k is None for k in e.keys):
             _ce(e, "dict unpacking")
@@ -943,9 +1024,11 @@ class Interp:
                 return base.shadow[attr]
             v = getattr(base.real, attr)
             if callable(v) and not isinstance(v, type):
+                if isinstance(v, (types.MethodType, types.FunctionType)):
+                    return RealMethod(base, attr, v)     # callable on concrete arguments only (see call)
                 _ce(node, f"call-able attribute {attr} of proxied class {base.real.__name__}")
             return v
-        if isinstance(base, (BitSet, SymDict, SymODict, SymOrder)):
+        if isinstance(base, (BitSet, SymDict, SymSet, SymODict, SymOrder)):
             return ModelMethod(base, attr)
         if isinstance(base, Poison):
             _ce(node, base.why)
@@ -978,6 +1061,15 @@ class Interp:
             v = base.vals[key]
             if isinstance(v, Poison):
                 _ce(e, v.why)
+            pk = base.pres(key)
+            if pk is not True:
+                # KeyError exactly where the key has not been inserted on this path
+                known = any((f is pk) or (isinstance(f, z3.ExprRef) and isinstance(pk, z3.ExprRef) and f.eq(pk)) for f in self.facts)
+                miss = False if known else b_and(self.pc, b_not(pk))
+                if miss is not False:
+                    self.exc['KeyError'] = b_or(self.exc.get('KeyError', False), miss)
+                    self.escapes += 1
+                    self.pc = b_and(self.pc, pk)
             return v
         if isinstance(base, SymODict):
             if not is_concrete(key):
@@ -1253,7 +1345,19 @@ class Interp:
         if isinstance(cont, SymDict):
             if not is_concrete(item):
                 _ce(node, "membership of a symbolic key")
-            return item in cont.vals
+            try:
+                return cont.pres(item)
+            except TypeError:
+                self.raise_exc('TypeError')
+                return False
+        if isinstance(cont, SymSet):
+            if not is_concrete(item):
+                _ce(node, "membership of a symbolic element")
+            try:
+                return cont.member(item)
+            except TypeError:
+                self.raise_exc('TypeError')
+                return False
         if isinstance(cont, View) and cont.kind == 'keys':
             return self.contains(cont.base, item, node)
         if isinstance(cont, BitSet):
@@ -1306,6 +1410,8 @@ class Interp:
                 return issubclass(frozenset, c)
             if isinstance(o, (SymDict, SymODict)):
                 return issubclass(dict, c)
+            if isinstance(o, SymSet):
+                return issubclass(set, c)
             if is_boolish(o):
                 return issubclass(bool, c)
             if not is_concrete(o):
@@ -1316,7 +1422,14 @@ class Interp:
             if isinstance(o, BitSet):
                 return Nat(popcount(o.bv, o.n))
             if isinstance(o, SymDict):
-                return len(o.vals)
+                if o.all_present():
+                    return len(o.vals)
+                return z3.Sum([z3.If(zb(o.pres(k)), 1, 0) for k in o.vals])
+            if isinstance(o, SymSet):
+                el = o.concrete_elems()
+                if el is not None:
+                    return len(el)
+                return z3.Sum([z3.If(zb(o.member(k)), 1, 0) for k in o.mem])
             if isinstance(o, SymODict):
                 return z3.Sum([z3.If(o.present[k], 1, 0) for k in o.universe])
             if not is_concrete(o):
@@ -1332,6 +1445,14 @@ class Interp:
             if f is builtins.set and not self.set_is_frozen:
                 _ce(node, "mutable set of a symbolic set")
             return args[0]
+        if f is builtins.set and not args and not kwargs:
+            return SymSet()                # a mutable set: modelled (a concrete Python set could not be updated under a path condition)
+        if f is builtins.set and len(args) == 1 and isinstance(args[0], SymSet) and not kwargs:
+            return self.model_call(args[0], 'copy', [], {}, node)
+        if f is builtins.dict and not args and not kwargs:
+            return SymDict()
+        if isinstance(f, RealMethod):
+            return self.real_call(f, args, kwargs, node)
         if isinstance(f, type) and f in self.model_classes:
             o = Obj(f, len(self.facts))
             init = None
@@ -1375,6 +1496,53 @@ class Interp:
         _ce(node, f"call of {getattr(f, '__qualname__', None) or getattr(f, '__name__', None) or type(f).__name__}"
                   f" with {'concrete' if conc else 'symbolic'} arguments is outside the supported subset")
 
+    def real_call(self, f, args, kwargs, node):
+        """helper (class) method of a proxied real class on concrete arguments: the REAL function is executed, once, in this
+        process.  Allowed only (a) on an unconditional path (its side effects on real class state, e.g. a cache, happen
+        exactly when the encoded code would run it), (b) with concrete arguments and a concrete result, (c) if its source -- and
+        the source of every method of the class it mentions -- does not read or write an attribute the proxy shadows with a
+        model value.  The history it sees is the history of THIS process: callers enumerate histories explicitly."""
+        where = f"{f.proxy.real.__name__}.{f.name}"
+        if not (is_concrete(args) and all(is_concrete(v) for v in kwargs.values())):
+            _ce(node, f"call of the real method {where} with symbolic arguments")
+        if self.pc is not True:
+            _ce(node, f"call of the real method {where} under a symbolic path condition")
+        seen, todo = set(), [f.name]
+        while todo:
+            nm_ = todo.pop()
+            if nm_ in seen:
+                continue
+            seen.add(nm_)
+            raw = None
+            for k in f.proxy.real.__mro__:
+                if nm_ in k.__dict__:
+                    raw = k.__dict__[nm_]
+                    break
+            raw = getattr(raw, '__func__', raw)
+            if not isinstance(raw, types.FunctionType):
+                continue
+            try:
+                fs = func_src(raw)
+            except (OSError, TypeError, CannotEncode):
+                _ce(node, f"source of the real method {where} is not available")
+            for n in ast.walk(fs.node):
+                if isinstance(n, ast.Attribute):
+                    if n.attr in f.proxy.shadow:
+                        _ce(node, f"the real method {where} touches {n.attr}, which is modelled symbolically here")
+                    if n.attr not in seen and callable(getattr(f.proxy.real, n.attr, None)) and \
+                            isinstance(n.value, ast.Name) and n.value.id in ('cls', 'self', f.proxy.real.__name__):
+                        todo.append(n.attr)
+            self.functions.setdefault(fs.qualname, dict(fs.describe(), how='executed concretely (real function, concrete arguments)'))
+        self.stats['real_calls'] = self.stats.get('real_calls', 0) + 1
+        try:
+            r = f.fn(*args, **kwargs)
+        except (ValueError, KeyError, IndexError, TypeError, AttributeError, RuntimeError, AssertionError, RecursionError) as ex:
+            self.raise_exc(type(ex).__name__)
+            return None
+        if not is_concrete(r):
+            _ce(node, f"the real method {where} returned a model value")
+        return r
+
     def model_call(self, base, name, args, kwargs, node):
         if kwargs:
             _ce(node, f"keyword arguments to {type(base).__name__}.{name}")
@@ -1397,13 +1565,77 @@ class Interp:
             if name == 'copy' and not args:
                 return base
             _ce(node, f"frozenset.{name}")
+        if isinstance(base, SymSet):
+            def elems(v):
+                if isinstance(v, SymSet):
+                    return [(k, v.member(k)) for k in v.mem]
+                if isinstance(v, (frozenset, set, tuple, list, range)) and is_concrete(v) or type(v).__name__ == 'dict_keys':
+                    return [(k, True) for k in v]
+                _ce(node, f"set.{name} with {type(v).__name__}")
+
+            def hashable(k):
+                if not is_concrete(k):
+                    _ce(node, f"set.{name} of a symbolic element")
+                try:
+                    hash(k)
+                except TypeError:
+                    self.raise_exc('TypeError')
+                    return False
+                return True
+            if name in ('add', 'discard', 'remove') and len(args) == 1:
+                k = args[0]
+                if not hashable(k):
+                    return None
+                if self._iterating(base):
+                    _ce(node, "set changed while iterating it")
+                self.stats['heap_writes'] += 1
+                if name == 'add':
+                    base.mem[k] = b_or(base.member(k), self.pc)
+                    return None
+                if name == 'remove':
+                    miss = b_and(self.pc, b_not(base.member(k)))
+                    if miss is not False:
+                        self.exc['KeyError'] = b_or(self.exc.get('KeyError', False), miss)
+                        self.escapes += 1
+                        self.pc = b_and(self.pc, base.member(k))
+                if k in base.mem:
+                    base.mem[k] = b_and(base.member(k), b_not(self.pc))
+                return None
+            if name == 'update':
+                if self._iterating(base):
+                    _ce(node, "set changed while iterating it")
+                for a in args:
+                    for k, m in elems(a):
+                        if hashable(k):
+                            base.mem[k] = b_or(base.member(k), b_and(self.pc, m))
+                            self.stats['heap_writes'] += 1
+                return None
+            if name == 'copy' and not args:
+                c = SymSet()
+                c.mem = dict(base.mem)
+                return c
+            if name == 'clear' and not args:
+                if self._iterating(base):
+                    _ce(node, "set changed while iterating it")
+                for k in list(base.mem):
+                    base.mem[k] = b_and(base.member(k), b_not(self.pc))
+                self.stats['heap_writes'] += 1
+                return None
+            if name == '__contains__' and len(args) == 1:
+                return self.contains(base, args[0], node)
+            _ce(node, f"set.{name}")
         if isinstance(base, (SymDict, SymODict)):
             if name in ('items', 'keys', 'values') and not args:
                 return View(base, name)
             if name == 'get' and 1 <= len(args) <= 2 and is_concrete(args[0]):
                 dflt = args[1] if len(args) == 2 else None
                 if isinstance(base, SymDict):
-                    return base.vals.get(args[0], dflt)
+                    if args[0] not in base.vals:
+                        return dflt
+                    r = merge(base.pres(args[0]), base.vals[args[0]], dflt)
+                    if isinstance(r, Poison):
+                        _ce(node, r.why)
+                    return r
                 k = base.key(args[0])
                 if k is None:
                     return dflt
@@ -1575,6 +1807,31 @@ def k3(s, t):
         return (u & t) <= s and not (u & t)
     return s.isdisjoint(t) == (not (s & t))
 
+def k4(od, flags, log):
+    seen = set()
+    cache = {}
+    def visit(k):
+        if k in seen:
+            return
+        seen.add(k)
+        for o in ("p", "q", "r"):
+            if o in seen:
+                continue
+            if o not in cache:
+                cache[o] = (k == "p")
+            if o in od and od[o] and o != k:
+                flags[o] = False
+    for k in od.keys():
+        if od[k]:
+            visit(k)
+    log["n"] = len(seen)
+    log["q_seen"] = "q" in seen
+    log["q_cached"] = "q" in cache
+    if "q" in cache:
+        log["q_by_p"] = cache["q"]
+    seen.discard("p")
+    log["p_after"] = "p" in seen or not seen
+
 def bad1(a):
     try:
         return a
@@ -1638,6 +1895,40 @@ def selftest():
     ok = ok and s.check() == z3.sat
     s.add(z3.Not(z3.And(P['p'], P['q'])))      # with at most one non-skipped key the order cannot matter
     ok = ok and s.check() == z3.unsat
+    # k4: a set and a dict of concrete keys with symbolic membership (add / in / not in / discard / len / truth / d[k] = v under a
+    # path condition), driven by a symbolically ordered dict -- against CPython on every presence/value/order
+    keys = ['p', 'q', 'r']
+    P = {k: z3.Bool('P_' + k) for k in keys}
+    V = {k: z3.Bool('V_' + k) for k in keys}
+    R = {k: z3.Int('R_' + k) for k in keys}
+    it4 = Interp()
+    flags4 = SymDict({k: True for k in keys})
+    log4 = SymDict({'n': 0, 'q_seen': False, 'q_cached': False, 'q_by_p': False, 'p_after': False})
+    it4.inline(fd['k4'], None, {}, 'k4', [SymODict(keys, P, V, R), flags4, log4], {}, None)
+    s = new_solver()
+    s.add(z3.Distinct(*R.values()), *[z3.And(0 <= r, r < 3) for r in R.values()], z3.Or([zb(c) for c in it4.exc.values()] + [z3.BoolVal(False)]))
+    ok = ok and s.check() == z3.unsat and not it4.unwind
+    for pres in itertools.product([False, True], repeat=3):
+        for vals in itertools.product([False, True], repeat=3):
+            for perm in itertools.permutations(range(3)):
+                od = {}
+                for pos in range(3):
+                    i = perm.index(pos)
+                    if pres[i]:
+                        od[keys[i]] = vals[i]
+                fl = {k: True for k in keys}
+                lg = {'n': 0, 'q_seen': False, 'q_cached': False, 'q_by_p': False, 'p_after': False}
+                pyns['k4'](od, fl, lg)
+                sub = [(P[k], z3.BoolVal(pres[i])) for i, k in enumerate(keys)] + [(V[k], z3.BoolVal(vals[i])) for i, k in enumerate(keys)] + \
+                      [(R[k], z3.IntVal(perm[i])) for i, k in enumerate(keys)]
+
+                def ev4(t):
+                    t = z3.simplify(z3.substitute(zb(t) if isinstance(t, bool) else (z3.IntVal(t) if isinstance(t, int) else t), *sub))
+                    return z3.is_true(t) if z3.is_bool(t) else t.as_long()
+                if any(ev4(flags4.vals[k]) != fl[k] for k in keys) or any(ev4(log4.vals[k]) != lg[k] for k in lg):
+                    if os.environ.get('VERIF_DEBUG'):
+                        print('k4 mismatch', od, {k: ev4(flags4.vals[k]) for k in keys}, fl, {k: ev4(log4.vals[k]) for k in lg}, lg, file=sys.stderr)
+                    ok = False
     # k3: set algebra on an 8-symbol universe against frozensets
     S, T = z3.BitVecs('s t', 8)
     it3 = Interp(universe=8)
